@@ -619,7 +619,7 @@ func ruleC08VerifyBeforeUse(c *Ctx) {
 			if pl := df.Type().Params.List; len(pl) > 0 && len(pl[0].Names) > 0 {
 				dHdr = dinfo.Defs[pl[0].Names[0]]
 			}
-			if dlit == nil {
+			if dlit == nil && len(dbind) == 0 {
 				c.bad(rule, f, construct, cs.Call.Pos(), "verification is skipped, and the decrypt callback is not a closure over the operation's own header snapshot: headers read back from the tape reach the index unverified")
 				continue
 			}
@@ -643,13 +643,19 @@ func ruleC08VerifyBeforeUse(c *Ctx) {
 					return false
 				}
 				v, ok := objOfIdent(dinfo, ix.X).(*types.Var)
-				if !ok || v.IsField() {
+				if !ok {
+					v = selField(dinfo, ix.X) // a field of the method's receiver (method-value callbacks)
+				}
+				if v == nil {
 					return false
 				}
 				if arg, bound := dbind[v]; bound {
-					// factory parameter: the operation must pass one of its own locals
+					// factory parameter / receiver field: the operation must pass one of its own locals
 					lv, ok := objOfIdent(f.Pkg.TypesInfo, arg).(*types.Var)
 					return ok && !lv.IsField()
+				}
+				if v.IsField() || dlit == nil {
+					return false
 				}
 				return v.Pos() < dlit.Pos() // captured local of the operation
 			}
